@@ -103,6 +103,10 @@ def _root_.Taskpool.Req.pend (r : Req) : Nat :=
 
 def _root_.Taskpool.Req.AcqOK (r : Req) : Prop := r.kind = .map → r.frame = .waitRoom → r.acquired = true
 
+/-- no lost wake-up on one semaphore: if it has free slots and none is on its way to a woken waiter, nobody is waiting -/
+def _root_.Taskpool.Sem.WakeInv (s : Sem) : Prop :=
+  ∀ v, s.value = .fin v → 0 < v → grantsL s.waiters = 0 → ∀ w ∈ s.waiters, w.st ≠ .pending
+
 /-- the progress counters of a request -/
 structure Cnt where
   kind : ReqKind
@@ -125,7 +129,10 @@ structure MSigLe (r' r : Req) : Prop where
   pend : r'.pend ≤ r.pend
   acq : r.AcqOK → r'.AcqOK
   cnt : r'.cnt = r.cnt
-  fr : r'.frame = r.frame ∨ r'.frame = .done ∨ r'.frame = .running
+  fr : r'.frame = r.frame ∨ r'.frame = .done
+  out : r'.outcome = none → r.outcome = none
+  wk : r.mapSem.WakeInv → r'.mapSem.WakeInv
+  pge : r'.outcome = none → r.pend ≤ r'.pend
 
 /-- a request whose own books are balanced without any task (a newly registered one) -/
 def Cnt.fresh (c : Cnt) : Prop :=
@@ -133,41 +140,48 @@ def Cnt.fresh (c : Cnt) : Prop :=
   (c.kind = .apply → c.left = 0) ∧ (c.kind = .map → c.remaining = 0)
 
 def FreshReq (r : Req) : Prop :=
-  (∃ v, r.mapSem.value = .fin v ∧ v + grantsL r.mapSem.waiters + r.pend ≤ r.nc) ∧ r.AcqOK ∧ r.cnt.fresh ∧
+  (∃ v, r.mapSem.value = .fin v ∧ v + grantsL r.mapSem.waiters + r.pend ≤ r.nc ∧
+    ((r.outcome = none → r.nc ≤ v + grantsL r.mapSem.waiters + r.pend) ∧ r.mapSem.WakeInv)) ∧ r.AcqOK ∧ r.cnt.fresh ∧
   (r.frame = .notStarted ∨ r.frame = .done ∨ r.frame = .running)
 
 theorem FreshReq.le {r' r : Req} (h : FreshReq r) (hle : MSigLe r' r) : FreshReq r' := by
-  obtain ⟨⟨v, hv, hs⟩, ha, hc⟩ := h
-  refine ⟨⟨v, by rw [hle.value]; exact hv, ?_⟩, hle.acq ha, ?_⟩
+  obtain ⟨⟨v, hv, hs, hs2, hw⟩, ha, hc⟩ := h
+  refine ⟨⟨v, by rw [hle.value]; exact hv, ?_, ?_, hle.wk hw⟩, hle.acq ha, ?_⟩
   · rw [hle.grants, hle.nc]
     have := hle.pend
     omega
+  · intro hnd
+    rw [hle.grants, hle.nc]
+    have := hle.pge hnd
+    have := hs2 (hle.out hnd)
+    omega
   · obtain ⟨c1, c2⟩ := hc
     exact ⟨by rw [hle.cnt]; exact c1, by
-      rcases hle.fr with e | e | e
+      rcases hle.fr with e | e
       · rw [e]; exact c2
-      · right; left; exact e
-      · right; right; exact e⟩
+      · right; left; exact e⟩
 
-theorem MSigLe.refl (r : Req) : MSigLe r r := ⟨rfl, rfl, rfl, Nat.le_refl _, fun h => h, rfl, Or.inl rfl⟩
+theorem MSigLe.refl (r : Req) : MSigLe r r :=
+  ⟨rfl, rfl, rfl, Nat.le_refl _, fun h => h, rfl, Or.inl rfl, fun h => h, fun h => h, fun _ => Nat.le_refl _⟩
 
 theorem MSigLe.trans {a b c : Req} (h1 : MSigLe b a) (h2 : MSigLe c b) : MSigLe c a :=
   ⟨h2.value.trans h1.value, h2.grants.trans h1.grants, h2.nc.trans h1.nc, Nat.le_trans h2.pend h1.pend,
     fun h => h2.acq (h1.acq h), h2.cnt.trans h1.cnt, by
-      rcases h2.fr with e | e | e
-      · rcases h1.fr with e1 | e1 | e1
+      rcases h2.fr with e | e
+      · rcases h1.fr with e1 | e1
         · exact Or.inl (e.trans e1)
-        · exact Or.inr (Or.inl (e.trans e1))
-        · exact Or.inr (Or.inr (e.trans e1))
-      · exact Or.inr (Or.inl e)
-      · exact Or.inr (Or.inr e)⟩
+        · exact Or.inr (e.trans e1)
+      · exact Or.inr e, fun hnd => h1.out (h2.out hnd), fun h => h2.wk (h1.wk h),
+      fun hnd => Nat.le_trans (h1.pge (h2.out hnd)) (h2.pge hnd)⟩
 
 /-- slot conservation of every call's own semaphore, as an inequality (a spawner that dies with an exception while it
 carries a slot takes the slot with it): `free + held by tasks + granted to the waiting spawner + carried ≤ num_concurrent` -/
 structure MapOK (p : Pool) : Prop where
   ref : ∀ (t : Nat) (tk : PTask), p.tasks[t]? = some tk → tk.mapHeld = true → tk.req < p.reqs.length
   le : ∀ (m : Nat) (r : Req), p.reqs[m]? = some r →
-        ∃ v, r.mapSem.value = .fin v ∧ v + heldM p.tasks m + grantsL r.mapSem.waiters + r.pend ≤ r.nc
+        ∃ v, r.mapSem.value = .fin v ∧ v + heldM p.tasks m + grantsL r.mapSem.waiters + r.pend ≤ r.nc ∧
+          (r.outcome = none → r.nc ≤ v + heldM p.tasks m + grantsL r.mapSem.waiters + r.pend)
+  wk : ∀ (m : Nat) (r : Req), p.reqs[m]? = some r → r.mapSem.WakeInv
   acq : ∀ (m : Nat) (r : Req), p.reqs[m]? = some r → r.AcqOK
 
 /-! ### request accounting -/
@@ -507,21 +521,27 @@ theorem Tame.heldM_eq {p q : Pool} (h : Tame p q) (m : Nat) : heldM q.tasks m = 
     exact ⟨tk, a, by rw [show tk'.mapHeld = tk.mapHeld from congrArg SoftP.mapHeld b,
                           show tk'.req = tk.req from congrArg SoftP.req b]⟩)
 
+theorem MSigLe.live {r' r : Req} (b : MSigLe r' r) (hnd : r'.outcome = none) : r.outcome = none := b.out hnd
+
 theorem Tame.map {p q : Pool} (h : Tame p q) (hm : MapOK p) : MapOK q := by
-  refine ⟨?_, ?_, ?_⟩
+  refine ⟨?_, ?_, ?_, ?_⟩
   · intro t tk' ht hh
     obtain ⟨tk, a, b⟩ := h.soft t tk' ht
     rw [show tk'.req = tk.req from congrArg SoftP.req b]
     exact Nat.lt_of_lt_of_le (hm.ref t tk a (by rw [← show tk'.mapHeld = tk.mapHeld from congrArg SoftP.mapHeld b]; exact hh)) h.rql
   · intro m r' hr
-    rcases h.rq m r' hr with ⟨r, a, b⟩ | ⟨hge, ⟨v, hv, hs⟩, _⟩
-    · obtain ⟨v, hv, hs⟩ := hm.le m r a
-      refine ⟨v, by rw [b.value]; exact hv, ?_⟩
-      rw [h.heldM_eq, b.grants, b.nc]
-      have := b.pend
-      omega
-    · refine ⟨v, hv, ?_⟩
-      have h0 : Taskpool.heldM p.tasks m = 0 := by
+    rcases h.rq m r' hr with ⟨r, a, b⟩ | ⟨hge, ⟨v, hv, hs, hs2, _⟩, _⟩
+    · obtain ⟨v, hv, hs, hs2⟩ := hm.le m r a
+      refine ⟨v, by rw [b.value]; exact hv, ?_, ?_⟩
+      · rw [h.heldM_eq, b.grants, b.nc]
+        have := b.pend
+        omega
+      · intro hnd
+        rw [h.heldM_eq, b.grants, b.nc]
+        have := b.pge hnd
+        have := hs2 (b.live hnd)
+        omega
+    · have h0 : Taskpool.heldM p.tasks m = 0 := by
         unfold Taskpool.heldM
         rw [List.countP_eq_zero]
         intro tk hmem
@@ -531,8 +551,17 @@ theorem Tame.map {p q : Pool} (h : Tame p q) (hm : MapOK p) : MapOK q := by
           have hne : p.tasks[i].req ≠ m := by omega
           simp [hne]
         · simp [hh]
-      rw [h.heldM_eq, h0]
-      omega
+      refine ⟨v, hv, ?_, ?_⟩
+      · rw [h.heldM_eq, h0]
+        omega
+      · intro hnd
+        rw [h.heldM_eq, h0]
+        have := hs2 hnd
+        omega
+  · intro m r' hr
+    rcases h.rq m r' hr with ⟨r, a, b⟩ | ⟨_, ⟨_, _, _, _, hw⟩, _⟩
+    · exact b.wk (hm.wk m r a)
+    · exact hw
   · intro m r' hr
     rcases h.rq m r' hr with ⟨r, a, b⟩ | ⟨_, _, ha, _⟩
     · exact b.acq (hm.acq m r a)
@@ -568,7 +597,7 @@ theorem Tame.acc {p q : Pool} (h : Tame p q) (ha : AccOK p) : AccOK q := by
   · intro m r' hr
     rcases h.rq m r' hr with ⟨r, a, b⟩ | ⟨_, _, _, hc, hf⟩
     · rw [b.cnt]
-      exact (ha.rq m r a).frame b.fr
+      exact (ha.rq m r a).frame (b.fr.elim Or.inl (fun e => Or.inr (Or.inl e)))
     · exact AccReq.fresh hc hf
 
 /-- the two extra clauses of the strict variant, as a bundle -/
@@ -687,7 +716,7 @@ theorem tame0_modReq (p : Pool) (m : Nat) (f : Req → Req) : Tame0 p (p.modReq 
 
 /-- an update of a request that moves no map slot -/
 theorem tame_modReq (p : Pool) (m : Nat) (f : Req → Req)
-    (hf : ∀ x, MSigLe (f x) x := by intro x; exact ⟨rfl, rfl, rfl, Nat.le_refl _, fun h => h, rfl, Or.inl rfl⟩) :
+    (hf : ∀ x, MSigLe (f x) x := by intro x; exact ⟨rfl, rfl, rfl, Nat.le_refl _, fun h => h, rfl, Or.inl rfl, fun h => h, fun h => h, fun _ => Nat.le_refl _⟩) :
     Tame p (p.modReq m f) := by
   refine ⟨⟨rfl, rfl, rfl, rfl, rfl, rfl, rfl, fun h => h, List.Sublist.refl _, fun _ tk' h => ⟨tk', h, rfl⟩, rfl,
     fun h => h.of_soft rfl rfl rfl (fun _ tk' h => ⟨tk', h, rfl⟩), fun h => h.of_eq rfl rfl, rfl⟩,
@@ -847,7 +876,15 @@ theorem tame_metaCancel (p : Pool) (m) : Tame p (p.metaCancel m) := by
       · split
         · refine (tame_modReq p m _ ?_).trans (tame_schedMeta _ _)
           intro x
-          exact ⟨rfl, grantsL_cancelWaiterL m _, rfl, Nat.le_refl _, fun h => h, rfl, Or.inl rfl⟩
+          refine ⟨rfl, grantsL_cancelWaiterL m _, rfl, Nat.le_refl _, fun h => h, rfl, Or.inl rfl, fun h => h, ?_, fun _ => Nat.le_refl _⟩
+          intro h v b c d w hw hp
+          have hg := grantsL_cancelWaiterL m x.mapSem.waiters
+          simp only [cancelWaiterL, List.mem_map] at hw
+          obtain ⟨w0, hw0, rfl⟩ := hw
+          have := h v b c (by rw [← hg]; exact d) w0 hw0
+          split at hp
+          · cases hp
+          · exact this hp
         · exact tame_modReq p m _
 
 end Pool
